@@ -47,6 +47,10 @@ func retConst(d *DPath, idx int) (string, bool) {
 	if t.K == "const" && t.C != nil {
 		return t.C.ExactString(), true
 	}
+	// a closed arithmetic term (e.g. 1 + int64(2) after the path fixed a phi) folds to its value
+	if v, ok := evalTerm(t, map[string]*big.Int{}); ok {
+		return v.String(), true
+	}
 	return t.String(), false
 }
 
@@ -306,6 +310,73 @@ func varintBytesLeaf(d *DPath) string {
 	return s
 }
 
+// partialFill: the buffer al (zeroed by make) is written on this path by exactly one call,
+// io.ReadFull(r, al[:k]) with k constant on the path, k < size; every other use only reads it.
+func partialFill(d *DPath, al *ssa.Alloc, size int64) (int64, bool) {
+	onPath := map[ssa.Instruction]bool{}
+	for _, ins := range pathInstrs(d) {
+		onPath[ins] = true
+	}
+	k := int64(-1)
+	// views of the buffer: slices of it starting at offset 0, with their length on this path
+	type view struct {
+		v   ssa.Value
+		len int64
+	}
+	work := []view{{al, size}}
+	seen := map[ssa.Value]bool{}
+	for len(work) > 0 {
+		cur := work[0]
+		work = work[1:]
+		if seen[cur.v] || cur.v.Referrers() == nil {
+			continue
+		}
+		seen[cur.v] = true
+		for _, u := range *cur.v.Referrers() {
+			switch x := u.(type) {
+			case *ssa.DebugRef:
+			case *ssa.Slice:
+				if x.Low != nil || x.Max != nil {
+					return 0, false
+				}
+				n := cur.len
+				if x.High != nil {
+					v, ok := evalTerm(d.Env.Term(x.High), map[string]*big.Int{})
+					if !ok || v.Sign() <= 0 || v.Int64() > cur.len {
+						return 0, false
+					}
+					n = v.Int64()
+				}
+				work = append(work, view{x, n})
+			case *ssa.Call:
+				sc := x.Call.StaticCallee()
+				if sc == nil {
+					return 0, false
+				}
+				if strings.Contains(sc.String(), "encoding/binary") && strings.HasPrefix(sc.Name(), "Uint") {
+					continue // reads only
+				}
+				if sc.String() != "io.ReadFull" {
+					return 0, false
+				}
+				if !onPath[x] {
+					continue
+				}
+				if k >= 0 {
+					return 0, false
+				}
+				k = cur.len
+			default:
+				return 0, false
+			}
+		}
+	}
+	if k <= 0 || k >= size {
+		return 0, false
+	}
+	return k, true
+}
+
 func varintReadLeaf(d *DPath, stream bool) string {
 	if d.Ret == nil {
 		return ""
@@ -356,6 +427,19 @@ func varintReadLeaf(d *DPath, stream bool) string {
 				if al, isAlloc := a.X.(*ssa.Alloc); isAlloc && al.Comment == "makeslice" {
 					if at, ok := al.Type().Underlying().(*types.Pointer).Elem().Underlying().(*types.Array); ok {
 						nread = fmt.Sprint(at.Len())
+						// a zeroed buffer of which only the first k bytes were filled by the one
+						// io.ReadFull on this path, decoded little-endian over a width >= k, is the
+						// little-endian value of those k bytes
+						if k, ok := partialFill(d, al, at.Len()); ok && !strings.HasPrefix(dec, "BE") {
+							var wd int64
+							fmt.Sscanf(n, "Uint%d", &wd)
+							if k*8 <= wd && wd/8 <= at.Len() && (k == 1 || k == 2 || k == 4 || k == 8) {
+								nread = fmt.Sprint(k)
+								dec = fmt.Sprintf("Uint%d", k*8)
+							} else {
+								nread = fmt.Sprintf("%d of a %d-byte buffer", k, at.Len())
+							}
+						}
 					}
 				} else if isAlloc {
 					// literal []byte{b[0], 0}: the value is the first byte itself
